@@ -27,6 +27,23 @@
 // settled (work = best = the node's best block); a fresh wallet that registers the same programs is
 // the oracle.  Rescans are not in the model: these cases are judged by the oracle alone.
 //
+// The "race" stream: 1..3 episodes per case in which the real walletUpdater is held BETWEEN its two
+// chain reads.  The wallet's node reads its store through wsim.gateStore (forwards every call to the
+// real database.Store; the store caches, so the turnstile sits on Store.GetMainChainHash called from
+// Chain.GetBlockByHeight on the walletUpdater goroutine): the next block of the best branch wakes the
+// updater, it finds its best block in the main chain (InMainChain) and stands at the turnstile before
+// fetching the block at WorkHeight+1; a side branch forking 1..3 blocks below the wallet's best block
+// overtakes meanwhile (race:node-reorganised-while-held); released, the updater is handed a block of
+// the other branch.  Oracle only (held deliveries are not observed one by one).
+//
+// The "msig" stream: random trees that also pay the wallet's multi-signature accounts C (2-of-2) and
+// D (2-of-3): P2WSH programs, standard key space; run through the model (labels 10, 11 of Run.h_owner).
+//
+// A wallet that does not settle within 5 s (wallet best = work = node best, updater parked) ends the
+// case at once: class=wallet-not-following with the wallet's / node's heights and the deliveries as
+// replay; the child process then exits (its updater may be spinning) and the parent starts a new one for
+// the remaining cases, so a spinning or stuck updater cannot stall the run.
+//
 // Direct oracle (implementation outputs only):
 //   - after every delivery: every record Wallet.GetAccountUtxos lists is an unspent output, in the
 //     REAL state.UtxoViewpoint applied to the chain the wallet is attached to (class=phantom-utxo),
@@ -84,6 +101,14 @@ func run(c *Ctx) error {
 	for i, n := 0, c.N(48, 120); i < n; i++ {
 		cases = append(cases, &wsim.Case{ID: len(cases), Seed: c.Rng.Next(), Kind: "rescan"})
 	}
+	// the "race" stream: the updater held between its two chain reads while the node reorganises
+	for i, n := 0, c.N(30, 80); i < n; i++ {
+		cases = append(cases, &wsim.Case{ID: len(cases), Seed: c.Rng.Next(), Kind: "race"})
+	}
+	// the "msig" stream: random trees that also pay the wallet's multi-signature accounts (P2WSH)
+	for i, n := 0, c.N(24, 80); i < n; i++ {
+		cases = append(cases, &wsim.Case{ID: len(cases), Seed: c.Rng.Next(), Kind: "msig"})
+	}
 	res, err := wsim.RunAll("c24", cases)
 	if err != nil {
 		return err
@@ -99,7 +124,7 @@ func run(c *Ctx) error {
 		if r.Panic != "" || r.Hang {
 			what := "class=crash: the node/wallet process died: " + r.Panic
 			if r.Hang {
-				what = "class=hang: no answer within 300 s"
+				what = "class=hang: no answer within 150 s"
 			}
 			c.Stats.Fail(what, descr)
 			c.Stats.Case(key, false)
@@ -117,7 +142,7 @@ func run(c *Ctx) error {
 			c.Stats.Fail(f, descr)
 			c.Stats.Count("oracle-failure:" + strings.SplitN(strings.TrimPrefix(f, "class="), ":", 2)[0])
 		}
-		if cs.Kind == "rescan" || cs.Kind == "corpus-rescan-reorg" {
+		if cs.Kind == "rescan" || cs.Kind == "corpus-rescan-reorg" || cs.Kind == "race" || r.Abort {
 			// rescans are not in the model (trusted base): these cases are judged by the oracle alone
 			c.Stats.Count("oracle_only_cases")
 			if r.Detach {
